@@ -484,6 +484,108 @@ def build(seed, n):
         add('tdJump %d %d %d %s %s' % (K, kk, newk, ','.join('T' if b else 'F' for b in cur),
                                      ','.join(str(c) for c in chosen) if chosen else '-'), j)
 
+    # ---- Chain.clear: which arrays are cleared to which length, what becomes the start state
+    from epsie.chain.chaindata import ChainData
+    for hb in (False, True):
+        def mb2(x):
+            return -math.floor(x * x * 8) / 16.0, 0.0, {'b': x}
+        for nsteps_ in (0, 3):
+            ch = Chain(['x'], mb2 if hb else model, [P.Normal(['x'])], bit_generator=rng.randrange(1, 10 ** 6))
+            ch.start_position = {'x': 0.25}
+            ch.scratchlen = rng.randint(4, 9)
+            for _ in range(nsteps_):
+                ch.step()
+            it, lc, sl = ch.iteration, ch.lastclear, ch.scratchlen
+            cur = dict(ch.current_position) if nsteps_ else None
+            old_start = dict(ch._start)
+            log = []
+            names_ = {id(ch._positions): 'positions', id(ch._stats): 'stats', id(ch._acceptance): 'acceptance'}
+            if ch._blobs is not None:
+                names_[id(ch._blobs)] = 'blobs'
+            with patched(ChainData, 'clear', (lambda self, newlen=None, log=log, names_=names_, oc=ChainData.clear:
+                                               (log.append((names_.get(id(self), '?'), newlen)), oc(self, newlen))[1])):
+                ch.clear()
+
+            def j(ans, ch=ch, log=log, cur=cur, old_start=old_start, it=it):
+                t = ans.split()
+                want_start = 'cur' if it > 0 else 'old'
+                real_start = 'cur' if (cur is not None and dict(ch._start) == cur and it > 0) else 'old' if dict(ch._start) == old_start else '?'
+                if t[0] != want_start and it > 0 or (it > 0 and real_start != t[0]) or (it == 0 and t[0] != 'old'):
+                    return 'start position after clear(): real %s, translated %s' % (real_start, t[0])
+                got = [] if t[3] == '-' else [(e.split(':')[0], int(e.split(':')[1])) for e in t[3].split(',')]
+                if got != [(a, int(b)) for a, b in log]:
+                    return 'arrays cleared: real %s, translated %s' % (log, got)
+                if int(t[4]) != ch.lastclear:
+                    return 'lastclear after clear(): real %d, translated %s' % (ch.lastclear, t[4])
+                return None
+            add('clear %s %d %d %d' % ('T' if hb else 'F', it, lc, sl), j)
+
+    # ---- Sivia-Skilling update: real SSAdaptiveNormal._update with a stub chain
+    for _ in range(n):
+        nst = rng.randint(0, 30)
+        nacc0 = rng.randint(0, nst + 1)
+        acc = rng.random() < 0.5
+        p = P.SSAdaptiveNormal(['x'], cov=[rng.choice([0.25, 1.0, 4.0])], max_cov=rng.choice([None, 2.0, 100.0]))
+        p._nsteps = nst
+        p.n_accepted = nacc0
+        xi = float(p.target_rate)
+        scale0 = float(p._std[0])
+        mx = float(p._std.max())
+        nacc1 = nacc0 + int(acc)
+        n_iter = nst - (p.start_step - 1) + 1
+        eUp = float(numpy.exp(1 / nacc1)) if nacc1 > 0 else 1.0
+        eDown = float(numpy.exp(-1 / (n_iter - nacc1))) if n_iter - nacc1 > 0 else 1.0
+        sUp, sDown = eUp ** 0.5, eDown ** 0.5
+        if eUp == 1.0 or eDown == 1.0 or eUp == eDown:
+            continue
+        try:
+            p._update(_Ch(acc, 1.0 if acc else 0.0))
+        except Exception:      # noqa: BLE001
+            continue
+        ms = float(p.max_std)
+        if not math.isfinite(ms):
+            ms = 1e30
+        add('ss %d %d %s T %s %s %s %d %s %s %s %s %s' % (nst, p.start_step, 'T' if acc else 'F', fr(xi), fr(mx), fr(ms), nacc0,
+                                                        fr(scale0), fr(eUp), fr(eDown), fr(sUp), fr(sDown)),
+            (lambda ans, new=float(p._std[0]), na=int(p.n_accepted), nst=nst, nacc0=nacc0: None
+             if (int(ans.split()[0]) == na and _close(new, _rat(ans.split()[1]), 1e-10)) else
+             'Sivia-Skilling update at nsteps=%d n_accepted=%d: real (%d, %r), translated %s' % (nst, nacc0, na, new, ans)))
+
+    # ---- the acceptance rule where a likelihood vanishes: real _acceptance_ratio with -inf arguments
+    def tok(v):
+        return '-inf' if v == -math.inf else 'inf' if v == math.inf else 'nan' if v != v else fr(v)
+    for _ in range(n):
+        logp, clp = [rng.choice(DYADIC) for _ in range(2)]
+        logl = rng.choice([rng.choice(DYADIC), -math.inf, -math.inf])
+        cll = rng.choice([rng.choice(DYADIC), rng.choice(DYADIC), -math.inf])
+        beta = rng.choice([Fraction(0), Fraction(0), Fraction(1, 4), Fraction(1)])
+        u = rng.choice([0.05, 0.3, 0.7, 0.95])
+        ch = Chain(['x'], model, [P.Normal(['x'])], bit_generator=3, beta=float(beta))
+        gen = _Gen([u])
+        ch.proposal_dist = _PD(True, 0.0, 0.0, gen)
+        try:
+            acc, ar = Chain._acceptance_ratio(ch, float(logp), float(logl), 'prop', float(clp), float(cll), 'cur')
+            raised = False
+        except ValueError:
+            acc, ar, raised = False, float('nan'), True
+
+        def j(ans, acc=acc, ar=ar, raised=raised, gen=gen):
+            t = ans.split()
+            if t[1] == 'nan':
+                return None if raised else 'the translated kernel raises (nan) but the real method returned %r' % ((acc, ar),)
+            if raised:
+                return 'the real method raised but the translated kernel gives %s' % ans
+            want = 1.0 if t[1] == 'one' else 0.0 if t[1] == 'zero' else math.exp(_rat(t[1][4:]))
+            if not _close(ar, want, 1e-9):
+                return 'acceptance probability: real %r, translated %s' % (ar, t[1])
+            if (t[0] == 'T') != bool(acc):
+                return 'accept: real %r, translated %s' % (acc, t[0])
+            if gen.used != 1 - int(t[2]):
+                return 'uniforms consumed: real %d, translated %d' % (gen.used, 1 - int(t[2]))
+            return None
+        add('acceptX %s %s %s %s %s T 0 0 %s' % (tok(float(logp)), tok(logl), fr(beta), tok(float(clp)), tok(cll),
+                                                 fr(Fraction(math.log(u)))), j)
+
     # ---- Chain.state keys and the keys set_state reads
     ch = Chain(['x'], model, [P.Normal(['x'])], bit_generator=5)
     ch.start_position = {'x': 0.5}
@@ -536,7 +638,7 @@ KERNEL_PROPERTY = {
     'nsteps': 'C15', 'callJump': 'C15', 'jump': 'C15', 'logpdf': 'C15', 'update': 'C15', 'resetStart': 'C19',
     'chainLen': 'C08', 'getitem': 'C08', 'runGrowth': 'C06', 'sweepDue': 'C09', 'rowsViewed': 'C09',
     'sweepRow': 'C09', 'accept': 'C01', 'sweepLoop': 'C03', 'veitch': 'C13', 'vmf': 'C13',
-    'stateKeys': 'C05', 'stateReads': 'C05', 'annealLoop': 'C17', 'tdLogpdf': 'C11', 'tdJump': 'C10'}
+    'stateKeys': 'C05', 'stateReads': 'C05', 'annealLoop': 'C17', 'tdLogpdf': 'C11', 'tdJump': 'C10', 'clear': 'C06', 'ss': 'C13', 'acceptX': 'C01'}
 
 
 def run(seed, n, prop=None):
